@@ -524,6 +524,69 @@ def run_chains(unit, ctx):
             "counters": {"deep_chain_executions": ev}}
 
 
+# ---- a schema object that was accepted, then edited in place by its owner ------------------------
+_rejected = {}
+
+
+def rejected_singles(d):
+    """Every {keyword: w} of the hostile alphabet that the draft's check_schema refuses."""
+    if d not in _rejected:
+        out = []
+        for k in KW:
+            for w in (REFS + OWN_META_REFS[d] if k == "$ref" else W):
+                c = {k: w}
+                try:
+                    json.dumps(c)
+                except Exception:
+                    continue
+                if not ok_schema(d, c):
+                    out.append(c)
+        _rejected[d] = out
+    return _rejected[d]
+
+
+INPLACE_U = [None, 1, "a", [1, "a"], {"a": 1}, [], {}, 1.5, [[]], {"a": {"a": 1}}]
+
+
+def run_inplace(unit, ctx):
+    """{} is accepted; its owner then writes a keyword into the same object.  If check_schema (asked again, as
+    the property's premise requires) still accepts the object, validation must keep its promise."""
+    d, _, shard, n = unit
+    signal.signal(signal.SIGALRM, _alarm)
+    cls = _e1.CLS[d]
+    cands = rejected_singles(d) + [sc for sc in inner_schemas(d) if len(sc) == 1 and usable(sc)][::7]
+    ev = accepted_again = 0
+    viol, outcomes = [], {}
+    for i in range(shard, len(cands), n):
+        c = cands[i]
+        for first in ({}, {"title": "t"}):
+            obj = dict(first)
+            if not ok_schema(d, obj):
+                continue
+            try:
+                cls(obj).is_valid(None)
+            except Exception:
+                pass
+            obj.update(json.loads(json.dumps(c)))
+            if not ok_schema(d, obj) or not usable(obj):
+                outcomes["rejected-after-edit"] = outcomes.get("rejected-after-edit", 0) + 1
+                continue
+            accepted_again += 1
+            for x in INPLACE_U:
+                for entry in ("iter_errors", "module_validate"):
+                    ev += 1
+                    r = run_one(d, obj, x, entry)
+                    key = "ok" if r is None else r[0]
+                    outcomes[key] = outcomes.get(key, 0) + 1
+                    if r is not None and not (r[0] == "RecursionError" and r[1] == "in-place-ref-cycle"):
+                        viol.append({"signature": "C03|edited-in-place|%s|%s" % r, "size": len(str(c)),
+                                     "case": {"kind": "inplace", "draft": d, "first": first, "then": c, "instance": x,
+                                              "entry": entry},
+                                     "detail": {"exception": r[0], "where": r[1]}})
+    return {"evaluations": ev, "nontrivial": ev, "violations": viol, "samples": [], "outcomes": outcomes,
+            "counters": {"inplace_candidates": len(range(shard, len(cands), n)), "inplace_accepted_after_edit": accepted_again}}
+
+
 def plan(ctx):
     units = []
     sizes = {}
@@ -547,6 +610,7 @@ def plan(ctx):
         units += [(d, "reuse", i, nr) for i in range(nr)]
         units += [(d, "multi", i, 4) for i in range(4)]
         units += [(d, "chains", i, 4) for i in range(4)]
+        units += [(d, "inplace", i, 4) for i in range(4)]
     sizes["chain_depth"] = CHAIN_N
     for d in _e1.DRAFTS:
         sizes["chains_d%d" % d] = len(chain_cases(d))
@@ -568,7 +632,10 @@ def plan(ctx):
                  "subschemas (false included) in 9 two-slot positions x 10 instances through every entry point "
                  "(best_match sees ties between errors of different origin); DEEP CHAINS: every one-slot applicator "
                  "position nested 30 times around 4 leaves (schema size linear in the depth) x matching instances x 4 "
-                 "entry points under the 5 s watchdog (work that doubles per level does not finish); distinct by construction; "
+                 "entry points under the 5 s watchdog (work that doubles per level does not finish); EDITED IN PLACE: an "
+                 "accepted schema object ({} / {title}) into which its owner then writes each hostile {keyword: w} "
+                 "(those check_schema refuses, and a seventh of those it accepts): check_schema is asked again, and "
+                 "whatever it still accepts is validated x 10 instances x 2 entry points; distinct by construction; "
                  "non-trivial = every execution (each is a distinct accepted-schema/instance/entry-point triple)"),
         "bounds": dict(sizes, W=len(W), uplus=len(U), tier=ctx.tier),
         "assumptions": ["watchdog of 5 s per execution stands for 'hangs'",
@@ -610,6 +677,8 @@ def run_unit(unit, ctx):
         return run_multi(unit, ctx)
     if unit[1] == "chains":
         return run_chains(unit, ctx)
+    if unit[1] == "inplace":
+        return run_inplace(unit, ctx)
     d, wname, shard, n = unit
     signal.signal(signal.SIGALRM, _alarm)
     U = uplus(ctx.tier)
@@ -651,6 +720,19 @@ def run_unit(unit, ctx):
 
 def replay(case, ctx):
     signal.signal(signal.SIGALRM, _alarm)
+    if case.get("kind") == "inplace":
+        d = case["draft"]
+        obj = dict(case["first"])
+        ok_schema(d, obj)
+        try:
+            _e1.CLS[d](obj).is_valid(None)
+        except Exception:
+            pass
+        obj.update(case["then"])
+        if not ok_schema(d, obj):
+            return {"reproduced": False, "note": "check_schema refuses the edited object"}
+        r = run_one(d, obj, case["instance"], case["entry"])
+        return {"reproduced": r is not None, "observed": r}
     if case.get("kind") == "reuse":
         d, S = case["draft"], case["schema"]
         v = _e1.CLS[d](S)
